@@ -28,7 +28,36 @@ type mapSite struct {
 	stack   []ast.Node
 }
 
-func (s *mapSite) key() string { return s.fn + ":range " + s.expr }
+// key identifies a site without using local names: the function plus, for a field selector,
+// the owner type and field, otherwise the type of the ranged map.
+func (s *mapSite) key() string { return s.fn + ":range " + s.stableExpr() }
+
+func (s *mapSite) stableExpr() string {
+	if sel, ok := s.rng.X.(*ast.SelectorExpr); ok {
+		if tv, ok := s.pkg.TypesInfo.Types[sel.X]; ok && tv.Type != nil {
+			t := tv.Type
+			if pt, ok := t.Underlying().(*types.Pointer); ok {
+				t = pt.Elem()
+			}
+			if _, isStruct := t.Underlying().(*types.Struct); isStruct {
+				return typeShort(t) + "." + sel.Sel.Name
+			}
+		}
+		// package-qualified identifier (a package-level map)
+		return s.expr
+	}
+	if id, ok := s.rng.X.(*ast.Ident); ok {
+		if obj := s.pkg.TypesInfo.Uses[id]; obj != nil {
+			if obj.Parent() == obj.Pkg().Scope() {
+				return id.Name // package-level variable: its name is the stable identity
+			}
+		}
+	}
+	if tv, ok := s.pkg.TypesInfo.Types[s.rng.X]; ok && tv.Type != nil {
+		return typeShort(tv.Type)
+	}
+	return s.expr
+}
 
 func collectMapSites(p *Program) []*mapSite {
 	var out []*mapSite
@@ -79,6 +108,7 @@ type bodyClassifier struct {
 	fset     *token.FileSet
 	loopVars []string
 	locals   map[string]bool // variables declared inside the loop body
+	depth    int             // nesting of callee bodies classified in place
 }
 
 func (b *bodyClassifier) issue(pos token.Pos, format string, args ...interface{}) {
@@ -395,7 +425,64 @@ func (b *bodyClassifier) exprStmt(e ast.Expr) {
 		b.issue(call.Pos(), "E2 ordered output %s(…) once per map element", name)
 		return
 	}
+	// a local closure (or a function of the same package): classify its body as if it were
+	// written in place, with its parameters standing for values of the current element
+	if body, params := b.calleeBody(call); body != nil && b.depth < 2 {
+		inner := &bodyClassifier{site: b.site, info: b.info, fset: b.fset, depth: b.depth + 1, locals: map[string]bool{}}
+		inner.loopVars = append(append([]string{}, b.loopVars...), params...)
+		inner.block(body.List)
+		return
+	}
 	b.issue(call.Pos(), "E6 call statement %s(…) with effects the classifier has no summary for", name)
+}
+
+// calleeBody: the body of the function literal a call statement invokes through a local
+// variable, or of a package-level function of the same package; with its parameter names.
+func (b *bodyClassifier) calleeBody(call *ast.CallExpr) (*ast.BlockStmt, []string) {
+	id, ok := call.Fun.(*ast.Ident)
+	if !ok {
+		return nil, nil
+	}
+	obj := b.info.Uses[id]
+	if obj == nil {
+		return nil, nil
+	}
+	names := func(ft *ast.FuncType) []string {
+		var out []string
+		if ft.Params != nil {
+			for _, f := range ft.Params.List {
+				for _, n := range f.Names {
+					out = append(out, n.Name)
+				}
+			}
+		}
+		return out
+	}
+	var body *ast.BlockStmt
+	var params []string
+	for _, file := range b.site.pkg.Syntax {
+		ast.Inspect(file, func(n ast.Node) bool {
+			if body != nil {
+				return false
+			}
+			switch x := n.(type) {
+			case *ast.AssignStmt:
+				for i, l := range x.Lhs {
+					if lid, ok := l.(*ast.Ident); ok && (b.info.Defs[lid] == obj || b.info.Uses[lid] == obj) && i < len(x.Rhs) {
+						if fl, ok := x.Rhs[i].(*ast.FuncLit); ok {
+							body, params = fl.Body, names(fl.Type)
+						}
+					}
+				}
+			case *ast.FuncDecl:
+				if b.info.Defs[x.Name] == obj && x.Recv == nil && x.Body != nil {
+					body, params = x.Body, names(x.Type)
+				}
+			}
+			return true
+		})
+	}
+	return body, params
 }
 
 // expr looks for effects hidden in expressions (function literals, calls known to print).
